@@ -600,7 +600,9 @@ class IRSpec:
     def on_set_store(self, se, st, field, owner, x, present):
         h = st.heap
         if field == '_references':
-            goal = And(h['t:ref'][x], (h['l:ref'][x] == owner) if present else (h['l:ref'][x] != owner))
+            # leaving a reference set needs an announcement about that instance's reference (re-pointing to the same definition
+            # leaves and re-enters the set); entering needs the announced reference to be this definition
+            goal = And(h['t:ref'][x], h['l:ref'][x] == owner) if present else h['t:ref'][x]
             return self._cover(se, st, '_references.%s' % ('add' if present else 'remove'), goal)
 
     def rel_of_list(self, field, owner_cls=None):
